@@ -328,3 +328,27 @@ pub fn c12_buffer_data_conservation() {
     kani::cover!(true, "end");
     std::mem::forget(fw);
 }
+
+/// C04.contiguous: while the remainder of a header block (`Next::Continuation`) or of a
+/// chained DATA payload (`Next::Data`) is parked in the encoder, the codec accepts no
+/// other frame - whatever room the write buffer has - and `poll_ready` does not report
+/// readiness while the transport refuses the parked bytes.  Otherwise a frame is written
+/// between HEADERS and its CONTINUATION (RFC 9113 §6.10: connection error at the peer).
+fn no_frame_while_parked(cont: bool) {
+    let mut mock = Mock::new([0u8; EXP], 0, 0);
+    let mut fw: FramedWrite<Mock, ArrBuf> = small_fw(mock);
+    assert!(fw.has_capacity());
+    let sid = any_sid();
+    fw.encoder.next = Some(if cont {
+        Next::Continuation(crate::frame::verif_h::mk_continuation(sid.into()))
+    } else {
+        let data: [u8; 8] = kani::any();
+        Next::Data(frame::Data::new(sid.into(), ArrBuf { data, pos: 0, len: 8 }))
+    });
+    assert!(!fw.has_capacity(),
+        "C04: the codec accepts another frame while the rest of a header block / DATA payload is still parked (frame interleaved before CONTINUATION)");
+    kani::cover!(true, "end");
+    std::mem::forget(fw);
+}
+pub fn c04_write_no_frame_before_continuation() { no_frame_while_parked(true) }
+pub fn c04_write_no_frame_before_data_tail() { no_frame_while_parked(false) }
